@@ -52,7 +52,7 @@ def _case(draw, unit):
             'mode': draw(st.sampled_from(['default', 'periodization', 'periodic'])),
             'dtype': draw(st.sampled_from(['f64', 'f64', 'f64', 'f32'])),
             'shift': [draw(st.integers(-70, 70)), draw(st.integers(-70, 70))],
-            'reused': draw(st.integers(0, 3)) == 0,
+            'reused': draw(st.integers(0, 3)) == 0, 'ctx': draw(st.sampled_from(core.GRAD_CTXS)),
             'wave_row': (lambda pick: pick if pick != w else None)(draw(dwtu.wavelet_strategy(max_len=24)))
             if draw(st.integers(0, 3)) == 0 else None,
             'rx': draw(core.recipe_strategy()), 'k': draw(st.integers(0, 10**6))}
@@ -76,6 +76,12 @@ def ref_swt2(x, w, J):
 
 
 def run_case(case):
+    with core.grad_ctx(case.get('ctx')):
+        r = _run_case(case)
+    return r.label('ctx_' + case['ctx']) if case.get('ctx', 'default') != 'default' else r
+
+
+def _run_case(case):
     from pytorch_wavelets.dwt.transform2d import SWTForward
     r = Result()
     w, J = case['wave'], case['J']
